@@ -1987,6 +1987,15 @@ static int _GD_AddAlias(DIRFILE *restrict D, const char *restrict parent,
     goto add_alias_error;
   D->entry = (gd_entry_t **)ptr;
 
+  if (P) {
+    /* room for the new subfield in the parent's list */
+    ptr = _GD_Realloc(D, P->e->p.meta_entry, (P->e->n_meta + 1) *
+        sizeof(gd_entry_t*));
+    if (ptr == NULL)
+      goto add_alias_error;
+    P->e->p.meta_entry = (gd_entry_t **)ptr;
+  }
+
   /* create and store */
   E = _GD_Malloc(D, sizeof(gd_entry_t));
   if (E == NULL)
@@ -2009,6 +2018,13 @@ static int _GD_AddAlias(DIRFILE *restrict D, const char *restrict parent,
   if (D->error) {
     _GD_FreeE(D, E, 1);
     GD_RETURN_ERROR(D);
+  }
+
+  if (P) {
+    /* link the alias to its parent */
+    E->e->n_meta = -1;
+    E->e->p.parent = P;
+    P->e->p.meta_entry[P->e->n_meta++] = E;
   }
 
   /* add the entry and resort the entry list */
